@@ -70,6 +70,44 @@ def link_unlink(l0: int, l1: int) -> bool:
     return h.post(ok)
 
 
+def same_leaf(l0: int, l1: int) -> bool:
+    """
+    pre: 0 <= l0 <= MAXLEN and 0 <= l1 <= MAXLEN
+    post: _
+    """
+    c = CFG
+    fp = h.InFP()
+    # two names of one content with the SAME leaf identifier in different directories (records equal field by field:
+    # same name, length, date); the later-created name is removed; then rm_file by the surviving name
+    a = skel.new_iso(c)
+    a.add_directory(**dkw(c, 'DIR1'))
+    a.add_directory(**dkw(c, 'DIR2'))
+    a.add_fp(fp, l0, **fkw(c, 'AAA', '/DIR1'))
+    a.add_fp(fp, l1, **fkw(c, 'ZED', '/DIR2'))
+    a.add_hard_link(iso_old_path='/DIR1/AAA.;1', iso_new_path='/DIR2/AAA.;1', rr_name='aaa' if c['rr'] else None)
+    a.rm_hard_link(iso_path='/DIR2/AAA.;1')
+    a.force_consistency()
+    b = skel.new_iso(c)
+    b.add_directory(**dkw(c, 'DIR1'))
+    b.add_directory(**dkw(c, 'DIR2'))
+    b.add_fp(fp, l0, **fkw(c, 'AAA', '/DIR1'))
+    b.add_fp(fp, l1, **fkw(c, 'ZED', '/DIR2'))
+    b.force_consistency()
+    ok = _eq(skel.digest(a), skel.digest(b)) & skel.spans_ok(a, skel.collect_spans(a))
+    ok = ok & _shared_ok(a, [('iso_path', '/DIR1/AAA.;1')])
+    rec = a.get_record(iso_path='/DIR1/AAA.;1')
+    n = 0
+    for r, _pv in rec.inode.linked_records:
+        if r is rec:
+            n += 1
+    ok = ok & (n == 1)          # the surviving name is still tracked by its content
+    for iso in (a, b):
+        iso.rm_file(iso_path='/DIR1/AAA.;1')
+        iso.force_consistency()
+    ok = ok & _eq(skel.digest(a), skel.digest(b))
+    return h.post(ok)
+
+
 def last_link(l0: int, l1: int) -> bool:
     """
     pre: 0 <= l0 <= MAXLEN and 0 <= l1 <= MAXLEN
@@ -148,7 +186,7 @@ MANIFEST = {
 def obligations(tier):
     cfgs = skel.quick_cfgs() if tier == 'quick' else skel.pairwise_cfgs()
     obs = []
-    for fn in ('link_unlink', 'last_link', 'rm_file_all'):
+    for fn in ('link_unlink', 'last_link', 'rm_file_all', 'same_leaf'):
         for c in cfgs:
             obs.append({'name': 'C07.a/%s/%s' % (fn, skel.cfg_name(c)), 'module': __name__, 'func': fn, 'params': {'cfg': c},
                         'cond_timeout': 600, 'path_timeout': 100,
